@@ -120,6 +120,19 @@ pub async fn run_case(backend: &str, seed: u64, rep: &mut Report) -> anyhow::Res
         let (id1, f1) = ids[1];
         let dest = if f1 == default { extra } else { default };
         let _ = a.move_secret(&id1, &f1, &dest, Default::default()).await;
+        // rewriting operations: every folder is decrypted and sealed again (cipher change), a log is rebuilt (compaction),
+        // a folder key is replaced; what they write is scanned like everything else
+        if seed % 2 == 0 {
+            let key: sos_core::crypto::AccessKey = w.password.clone().into();
+            let r = a.change_cipher(&key, &sos_core::crypto::Cipher::XChaCha20Poly1305, None).await;
+            script.push(format!("change cipher -> {}", r.is_ok()));
+            rep.count(if r.is_ok() { "rewrite:change-cipher" } else { "rewrite:change-cipher-failed" });
+        }
+        if seed % 3 == 0 { let r = a.compact_folder(&default).await; script.push(format!("compact default folder -> {}", r.is_ok())); rep.count("rewrite:compact-folder"); }
+        if seed % 3 == 1 {
+            let nk: sos_core::crypto::AccessKey = SecretString::from(mk(&mut rng, "new folder password")).into();
+            let r = a.change_folder_password(&extra, nk).await; script.push(format!("change folder password -> {}", r.is_ok())); rep.count("rewrite:change-folder-password");
+        }
     }
     for _ in 0..2 { for k in 0..2 { let r = w.sync(k).await; script.push(format!("sync d{k} {:?}", r)); } }
     // second device reads everything (it has to decrypt, and may cache)
@@ -227,7 +240,7 @@ pub fn run(cli: &Cli) {
             rep.spec_fail("c03-harness-aborted", json!({"pairing": true, "inverted": inverted}), &e.to_string());
         }
     }
-    rep.rule = format!("{n} accounts per backend: five secret kinds with a distinct 22-character marker in every text position (labels, tags, values, urls, list keys/values, custom fields, comment, recovery note), folder description, an attachment, an update and a move; two devices synced through real server storage; \\
+    rep.rule = format!("{n} accounts per backend: five secret kinds with a distinct 22-character marker in every text position (labels, tags, values, urls, list keys/values, custom fields, comment, recovery note), folder description, an attachment, an update and a move, then a cipher change of the whole account (every second account), a compaction or a folder password change; two devices synced through real server storage; \\
         every file under both client directories and the server directory (sqlite pages and WAL, vaults, event logs, blobs, snapshots) and every encoded sync request/response is searched for every marker as raw UTF-8, hex, HEX, base64 / base64url at the 3 alignments, UTF-16 LE/BE; the account password is searched too; a backup archive (raw and per entry) and the SDK's complete log output (tracing at TRACE level) are searched as well; \
         two device pairing sessions (URL shared by the offering / by the accepting device) run through the relay of a live server behind a recording TCP proxy: the TCP streams and the unmasked websocket payloads are searched for both device signing keys, the account password and a secret's text");
     rep.write(&cli.out);
